@@ -747,7 +747,7 @@ func (w *world) randomOp(r *rand.Rand, withFetch bool, base int64) op {
 		o = op{kind: 'F', pushFail: true}
 	case withFetch && pick < 38:
 		o = op{kind: 'F', misFill: []int{0, 0, 1, 2}[r.Intn(4)]}
-		switch r.Intn(25) {
+		switch r.Intn(40) {
 		case 0: // the clock passes the instant "now + RetryInterval" of an earlier step
 			if w.retry > 0 {
 				o.wait = time.Duration(w.retry) + 200*time.Microsecond
@@ -1177,7 +1177,7 @@ func cmdSteps(args []string) {
 		runExhaustive(e, st, "small", 4, quiet, only)
 		runExhaustive(e, st, "small", 4, []string{"sd", "sh", "sc", "tc", "th"}, only)
 		runExhaustive(e, st, "collide", 4, quiet, only)
-		runExhaustive(e, st, "extreme", 4, []string{"nd", "nc", "nh"}, only)
+		runExhaustive(e, st, "extreme", 3, []string{"nd", "nc", "nh", "td", "tc", "th"}, only)
 		runExhaustive(e, st, "extreme-started", 3, []string{"sd", "sh", "sc"}, only)
 		runExhaustive(e, st, "full4", 3, []string{"nd", "nc", "nh"}, only)
 		runExhaustive(e, st, "full", 2, all, only)
